@@ -8,6 +8,7 @@
  * Variants (compile-time):
  *   default (OPAQUE)  payload copy/compare only; add/sub/mul/div return nondeterministic payloads
  *   QSV_GMP_EXACT     pair arithmetic in 64 bits, every result ASSERTED to fit in 32 bits
+ *   QSV_GMP_SIGNS     OPAQUE, but sums/differences obey the sign laws of an ordered field (see below)
  *   QSV_GMP_TOKENS    init allocates / clear frees a 1-byte heap token in _mp_num._mp_d, so that
  *                     missing ClearVar is a memory leak and use of an uninitialised or cleared
  *                     number is a pointer-check failure
@@ -148,8 +149,39 @@ int __gmpq_cmp(mpq_srcptr a, mpq_srcptr b) { tok_use(&a->_mp_num); tok_use(&b->_
 int __gmpq_cmp_ui(mpq_srcptr a, unsigned long n, unsigned long d) { return NUM(a) < (long) n ? -1 : NUM(a) > (long) n; }
 int __gmpq_cmp_si(mpq_srcptr a, long n, unsigned long d) { return NUM(a) < n ? -1 : NUM(a) > n; }
 static void opaque(mpq_ptr r) { tok_use(&r->_mp_num); NUM(r) = qsv_nondet_payload(); DEN(r) = 1; }
+#ifdef QSV_GMP_SIGNS
+/* OPAQUE + SIGNS: payloads are opaque ORDERED values (cmp compares payloads).  A sum / difference is still an
+ * arbitrary value, but it obeys the sign laws of an ordered field -- true facts of exact arithmetic that involve
+ * no magnitude, hence no overflow question:  sign(a-b) = cmp(a,b);  x+0 = x;  a,b >= 0 => a+b >= 0, and > 0 if
+ * one of them is;  symmetrically for <= 0.  Used by the verdict loops that add up same-signed infeasibilities. */
+static int sgn_(int v) { return v < 0 ? -1 : v > 0; }
+void __gmpq_add(mpq_ptr r, mpq_srcptr a, mpq_srcptr b)
+{
+	int x = NUM(a), y = NUM(b), v = qsv_nondet_payload();
+#ifdef QSV_CBMC
+	__CPROVER_assume(!(x == 0) || v == y); __CPROVER_assume(!(y == 0) || v == x);
+	__CPROVER_assume(!(x >= 0 && y >= 0) || (v >= 0 && ((x > 0 || y > 0) == (v > 0))));
+	__CPROVER_assume(!(x <= 0 && y <= 0) || (v <= 0 && ((x < 0 || y < 0) == (v < 0))));
+#else
+	v = x + y;
+#endif
+	NUM(r) = v; DEN(r) = 1;
+}
+void __gmpq_sub(mpq_ptr r, mpq_srcptr a, mpq_srcptr b)
+{
+	int x = NUM(a), y = NUM(b), v = qsv_nondet_payload();
+#ifdef QSV_CBMC
+	__CPROVER_assume(sgn_(v) == (x < y ? -1 : x > y));
+	__CPROVER_assume(!(y == 0) || v == x);
+#else
+	v = x - y;
+#endif
+	NUM(r) = v; DEN(r) = 1;
+}
+#else
 void __gmpq_add(mpq_ptr r, mpq_srcptr a, mpq_srcptr b) { tok_use(&a->_mp_num); tok_use(&b->_mp_num); opaque(r); }
 void __gmpq_sub(mpq_ptr r, mpq_srcptr a, mpq_srcptr b) { tok_use(&a->_mp_num); tok_use(&b->_mp_num); opaque(r); }
+#endif
 void __gmpq_mul(mpq_ptr r, mpq_srcptr a, mpq_srcptr b) { tok_use(&a->_mp_num); tok_use(&b->_mp_num); opaque(r); }
 void __gmpq_div(mpq_ptr r, mpq_srcptr a, mpq_srcptr b)
 { tok_use(&a->_mp_num); tok_use(&b->_mp_num); MODEL_ASSERT(NUM(b) != 0, "gmp: mpq_div by zero"); opaque(r); }
